@@ -29,6 +29,7 @@ class PROP(c02.PROP):
                 "C01_logical_short_circuit", "C01_logical_otherwise_right", "C01_div_mod_zero_is_error",
                 "C01_output_only_grows_eval", "C01_output_only_grows_exec"]
     prop_targets = ["theories/Props/C01.vo"]
+    allowed_axioms = ()
     quick_n = 500
     weights = dict(trace=0.45, err=0.25, lists=0.1, calls=0.2, ctl=0.2)
     rule = ("exhaustive: every binary operator (incl. AND / OR) applied to every ordered pair of operand representatives of every kind "
